@@ -16,7 +16,7 @@ import (
 )
 
 type JNode struct {
-	T  string   `json:"t"` // s string (decoded), r raw scalar text, o object, a array
+	T  string   `json:"t"`           // s string (decoded), r raw scalar text, o object, a array
 	S  string   `json:"s,omitempty"` // hex
 	KV []JKV    `json:"kv,omitempty"`
 	L  []*JNode `json:"l,omitempty"`
